@@ -92,8 +92,11 @@ def same_trace(a, b):
         return False
     if not isinstance(a, Node):
         return a == b
-    if (a.t, a.key, a.func, a.args, a.kwargs, a.ver, a.raised, a.setup, a.cret) != \
-            (b.t, b.key, b.func, b.args, b.kwargs, b.ver, b.raised, b.setup, b.cret):
+    # return values are not compared: with equal observations they are equal by
+    # determinism, except where METADATA is documentedly blind to a content change
+    # (C13) - and there a correct cache serves the recorded value
+    if (a.t, a.key, a.func, a.args, a.kwargs, a.ver, a.raised, a.setup) != \
+            (b.t, b.key, b.func, b.args, b.kwargs, b.ver, b.raised, b.setup):
         return False
     if len(a.sub) != len(b.sub):
         return False
